@@ -120,6 +120,8 @@ func c10Run(c *Ctx) {
 		}
 		fsets = append(fsets, f)
 	}
+	// field-name and selective modes next to encryption: the same relation between the two outputs
+	fsets = append(fsets, Flags{F: []string{"dbZq1.coQx7"}}, Flags{Z: "^(fld|status|owner)$"}, Flags{F: []string{"dbZq1"}, N: true, W: true}, Flags{Z: "^(fld|status|owner)$", B: true, I: true, R: customReplacement})
 	keys := c09Keys()
 	layers := []sweepLayer{
 		{"L0", GenOpts{LeafSet: 0}, 0, nil},
